@@ -25,7 +25,7 @@ RULE = ("billing models (fitted on generated monthly/bi-monthly reads; parameter
 ASSUMPTIONS = ["a calendar period is a local calendar month; bi-monthly bins are pairs of months anchored at the first month of the reporting data",
                "sums/means skip missing daily values; a period with no finite value may be reported as 0 or missing"]
 REQUIRED_REACH = {"agg.monthly.judged": 20, "agg.bimonthly.judged": 20, "clause.totals": 20, "arg.rejected": 40, "arg.accepted": 40,
-                  "rows.compared": 300, "without_observed": 3}
+                  "rows.compared": 300, "without_observed": 3, "data.gas_months_with_zero_usage": 8}
 
 VIOL = []
 CUR = {}
@@ -158,8 +158,14 @@ def run_case(spec):
         if gaps == "month":
             mm = int(df.index.month[int(rng.integers(0, n))])
             df.loc[df.index.month == mm, "temperature"] = np.nan
-        CUR.update(start=start, days=n, with_observed=with_obs, gaps=gaps)
-        data = em.BillingReportingData(df, is_electricity_data=True)
+        gas = bool(k == 1 and with_obs)
+        if gas:
+            # a non-electric meter with calendar months of zero usage (a summer gas account): a total of 0 is a total
+            for mz in rng.choice(np.unique(df.index.month.values), size=min(2, len(np.unique(df.index.month.values))), replace=False):
+                df.loc[df.index.month == int(mz), "observed"] = 0.0
+            I.reach("data.gas_months_with_zero_usage")
+        CUR.update(start=start, days=n, with_observed=with_obs, gaps=gaps, gas=gas)
+        data = em.BillingReportingData(df, is_electricity_data=not gas)
         frames = {}
         for arg in ACCEPT:
             mm_ = copy.deepcopy(m)
